@@ -54,3 +54,4 @@ Definition SAVER_TABLE : list (string * list string) :=
    ("save_float", ["FLOAT"]); ("save_frozenset", ["FROZENSET"]); ("save_int", ["INT"; "LONGINT"]);
    ("save_list", ["NEWLIST"]); ("save_long", ["LONG"; "LONGLONG"]); ("save_set", ["SET"]);
    ("save_str", ["PY3STRING"]); ("save_tuple", ["BUILDTUPLE"])].
+Definition FLOAT_FORMATS : string * string := ("!d", "!dd").
